@@ -5,7 +5,7 @@ import os
 import re
 import sys
 
-ROOT = os.path.join(os.path.dirname(os.path.abspath(__file__)), "..", "seeded")
+ROOT = os.environ.get("SEEDED", os.path.join(os.path.dirname(os.path.abspath(__file__)), "..", "seeded"))
 NEEDS = json.load(open(os.path.join(ROOT, "needs.json"))) if os.path.exists(os.path.join(ROOT, "needs.json")) else {}
 
 for d in sorted(glob.glob(os.path.join(ROOT, "C*"))):
